@@ -12,11 +12,38 @@ def known(v, k):
         c = v["case"]
         live = v["observed"].get("live", []) if isinstance(v["observed"], dict) else []
         return (v["clause"] == "peer-conn-exactly-when-exists" and live and all(x in c.get("secondary_connections", []) for x in live))
+    if k["id"] == "C13-cea-foreign-identity":
+        obs = v["observed"] if isinstance(v["observed"], dict) else {}
+        return v["clause"] in ("peer-conn-live", "reason-set", "ready-flag", "peer-conn-exactly-when-exists") and \
+            (obs.get("peer") in v["case"].get("foreign_cea_peers", []) or
+             (v["clause"] != "peer-conn-live" and bool(v["case"].get("foreign_cea_peers"))))
     return False
 
 
+def corpus():
+    """minimised histories found earlier (run first)"""
+    import nodesim as NS
+    cfg = NS.default_cfg()
+    cfg["peers"] = [dict(name="a.example.net", realm="example.net", addr=True, persistent=True, always=False, cea=None, cer=None,
+                         dwa=None, idle=None, rwait=30, apps=[0], default=False),
+                    dict(name="b.example.net", realm="example.net", addr=False, persistent=False, always=False, cea=None, cer=None,
+                         dwa=None, idle=None, rwait=30, apps=[0], default=False)]
+    e2e0 = ((NS.T0 << 20) | cfg["e2e_rand"]) & 0xffffffff
+    ev = [dict(ev="start", dials=[(500, "DialOk")]),
+          dict(ev="recv", cid=0, dials=[], frames=[NS.build_message(dict(kind="cea", host="b.example.net", result=2001, hbh=501, e2e=e2e0 + 1))]),
+          dict(ev="close", cid=0, dials=[])]
+    # second connection from an already connected peer, first one closes
+    cfg2 = NS.default_cfg()
+    ev2 = [dict(ev="start", dials=[]), dict(ev="accept", hbh0=100, dials=[]),
+           dict(ev="recv", cid=0, dials=[], frames=[NS.build_message(dict(kind="cer", host="cli0.example.net", hbh=1, e2e=1))]),
+           dict(ev="accept", hbh0=200, dials=[]),
+           dict(ev="recv", cid=1, dials=[], frames=[NS.build_message(dict(kind="cer", host="cli0.example.net", hbh=2, e2e=2))]),
+           dict(ev="close", cid=0, dials=[])]
+    return [("corpus: CEA with another peer's identity", cfg, ev), ("corpus: second connection from a connected peer", cfg2, ev2)]
+
+
 def check(run):
-    return nodecheck.run(run, "C13", FILES, PROFILE, W, N_QUICK, N_THOROUGH, LENGTH, known=known)
+    return nodecheck.run(run, "C13", FILES, PROFILE, W, N_QUICK, N_THOROUGH, LENGTH, known=known, extra_scenarios=corpus())
 
 
 replay = nodecheck.replay_generic
